@@ -9,6 +9,7 @@
 // comparison with the CSE-flipped twin and with eval_double(subs(...)) at
 // well-conditioned points only. ASan/UBSan watch for dangling CSE pointers.
 #include "../sim/harness.h"
+#include "../sim/alloc_seam.h"
 #include "../sim/exprgen.h"
 #include "../sim/refeval.h"
 #include <symengine/lambda_double.h>
@@ -79,6 +80,37 @@ Json gen_init(Rng &g, unsigned ev, bool cplx, bool thorough)
     o["pool"] = pool;
     Json outs = Json::array();
     unsigned nout = 1 + (unsigned)g.below(6);
+    if (g.chance(1, 6)) {
+        // overlapping sums / products of a few symbols: cse() has to find
+        // common argument sets among several n-ary nodes, in several stages
+        nout = 3 + (unsigned)g.below(4);
+        bool prod = g.chance(1, 3);
+        for (unsigned i = 0; i < nout; i++) {
+            Json r = Json::array();
+            r.push(prod ? "mul" : "add");
+            unsigned mask;
+            do
+                mask = (unsigned)g.below(1u << (nin + 2));
+            while (__builtin_popcount(mask) < 2);
+            for (unsigned b = 0; b < nin + 2; b++)
+                if (mask & (1u << b)) {
+                    Json leaf = Json::array();
+                    if (b < nin) {
+                        leaf.push("sym");
+                        leaf.push((long long)b);
+                    } else {
+                        leaf.push(b == nin ? "sin" : "exp");
+                        Json sy = Json::array();
+                        sy.push("sym");
+                        sy.push(0);
+                        leaf.push(sy);
+                    }
+                    r.push(leaf);
+                }
+            outs.push(r);
+        }
+        nout = 0;
+    }
     for (unsigned i = 0; i < nout; i++) {
         if (!cplx && g.chance(1, 6))
             outs.push(simx::rbool(g, p, depth, npool));
@@ -148,6 +180,9 @@ Json gen(uint64_t seed, const std::string &tier)
         kinds.push(g.chance(1, 4) ? "complex" : "real");
     Json cfg = Json::object();
     cfg["kinds"] = kinds;
+    static const char *pol[] = {"system", "lifo", "lifo", "fifo", "random"};
+    cfg["policy"] = pol[g.below(5)];
+    cfg["alloc_seed"] = (long long)(g.next() >> 2);
     plan["config"] = cfg;
     unsigned nops = 5 + (unsigned)g.below(thorough ? 50 : 36);
     // swarm: init / call / move weights
@@ -160,6 +195,7 @@ Json gen(uint64_t seed, const std::string &tier)
     for (unsigned i = 0; i < nobj; i++)
         ops.push(gen_init(g, i, kinds[i].s == "complex", thorough));
     static const double nice[] = {0.0, 1.0, -1.0, 0.5, 2.0, -2.5, 3.25, 0.25, -0.75, 1.5};
+    std::vector<Json> last_x(NSLOT);
     for (unsigned k = 0; k < nops; k++) {
         unsigned ev = (unsigned)g.below(nobj);
         switch (g.weighted(w)) {
@@ -171,11 +207,23 @@ Json gen(uint64_t seed, const std::string &tier)
                 o["op"] = "call";
                 o["ev"] = ev;
                 Json x = Json::array();
-                for (unsigned q = 0; q < 8; q++) {
-                    double v = g.chance(1, 3) ? nice[g.below(10)]
-                                              : (g.unit() * 8.0 - 4.0);
-                    x.push(Json(v));
-                }
+                if (last_x[ev].size() && g.chance(1, 4)) {
+                    // the very point of this evaluator's previous call (also
+                    // across a re-initialisation), possibly with the sign of
+                    // its zeros flipped
+                    x = last_x[ev];
+                    if (g.chance(1, 3))
+                        for (auto &v : x.a)
+                            if (v.as_double() == 0.0)
+                                v = Json(std::signbit(v.as_double()) ? 0.0 : -0.0);
+                    o["again"] = true;
+                } else
+                    for (unsigned q = 0; q < 8; q++) {
+                        double v = g.chance(1, 3) ? nice[g.below(10)]
+                                                  : (g.unit() * 8.0 - 4.0);
+                        x.push(Json(v));
+                    }
+                last_x[ev] = x;
                 o["x"] = x;
                 ops.push(o);
                 break;
@@ -503,6 +551,20 @@ void do_call(Run &run, Slot<V, T> &s, const Json &o, unsigned &judged)
             run.probe("value_oracle_skipped_ill_conditioned");
             continue;
         }
+        // the reference evaluation first: it also tells whether some
+        // subexpression sits on a branch cut, where no value is judged
+        T ref;
+        bool have = false;
+        simref::cut_hits() = 0;
+        try {
+            have = ref_value(*s.outputs[i], s.inputs, x, ref);
+        } catch (const simref::RefUnsupported &) {
+            have = false;
+        }
+        if (simref::cut_hits()) {
+            run.probe("value_oracle_skipped_on_branch_cut");
+            continue;
+        }
         if (s.twin) {
             if (!finite(tw[i]) || mag(tw[i] - want[i]) > 1e-6 * scale) {
                 // atan2 re-evaluates when cse() rebuilds it from replacement
@@ -518,13 +580,6 @@ void do_call(Run &run, Slot<V, T> &s, const Json &o, unsigned &judged)
                 return;
             }
             run.probe("cse_on_off_compared");
-        }
-        T ref;
-        bool have = false;
-        try {
-            have = ref_value(*s.outputs[i], s.inputs, x, ref);
-        } catch (const simref::RefUnsupported &) {
-            have = false;
         }
         if (!have || !finite(ref)) {
             run.probe("reference_unavailable");
@@ -589,10 +644,26 @@ void exec(Run &run)
     };
     const Json &ops = run.plan.at("ops");
     unsigned judged = 0;
+    std::string pol = run.plan.at("config").gets("policy", "system");
+    simalloc::configure(pol == "lifo"     ? simalloc::LIFO
+                        : pol == "fifo"   ? simalloc::FIFO
+                        : pol == "random" ? simalloc::RANDOM
+                                          : simalloc::SYSTEM,
+                        (uint64_t)run.plan.at("config").geti("alloc_seed", 1), (size_t)256 << 20,
+                        (size_t)2 << 30);
+    struct Off {
+        ~Off()
+        {
+            simalloc::deactivate();
+        }
+    } off;
+    run.fault("alloc_policy_" + pol);
     for (size_t k = 0; k < ops.size() && !run.failed(); k++) {
         const Json &o = ops[k];
         std::string op = o.gets("op");
         unsigned ev = (unsigned)(o.geti("ev") % nobj);
+        if (op == "call" && o.has("again"))
+            run.probe("call_at_the_previous_point_again");
         run.steps++;
         if (op == "init") {
             if (is_c(ev))
